@@ -64,8 +64,44 @@ def display_args(body, args_operand):
     return f
 
 
+def _built_by_pushes(body, t):
+    """a String created empty and then filled by exactly push_str(HEADER); push_str(&rendering) -> rendering call term"""
+    t = strip(t, mir.VALUE_PRESERVING + ("std::string::String::as_bytes", "std::string::String::as_str"))
+    local = None
+    if t[0] == "call" and t[1] in ("std::string::String::with_capacity", "std::string::String::new") and len(t) > 3:
+        local = t[3].node["dest"]["l"]
+    elif t[0] == "local":
+        ds = [d for d in body.defs().get(t[1], []) if d.si is None and cname(d.node) in ("std::string::String::with_capacity", "std::string::String::new")]
+        if len(ds) == 1 and len(body.defs().get(t[1], [])) == 1:
+            local = t[1]
+    if local is None:
+        return None
+    muts = []
+    for cs in body.calls():
+        for a in cs.node["args"][:1]:
+            if arg_ty(body, a).get("s", "").startswith("&mut "):
+                p = mir.op_place(a)
+                if p is not None and body.through_ref(p)["l"] == local and not body.through_ref(p)["p"]:
+                    muts.append(cs)
+    if len(muts) != 2 or any(cname(m.node) != "std::string::String::push_str" for m in muts):
+        return None
+    a, b_ = muts
+    if not body.dominates(a.bb, b_.bb):
+        a, b_ = b_, a
+    if not body.dominates(a.bb, b_.bb) or a.bb == b_.bb:
+        return None
+    first = strip(term_of(body, a.node["args"][1]), mir.VALUE_PRESERVING)
+    second = strip(term_of(body, b_.node["args"][1]), mir.VALUE_PRESERVING)
+    if first == ("const", HEADER) and second[0] == "call" and second[1].endswith("Element::to_serde_struct"):
+        return second
+    return None
+
+
 def is_struct_string(body, t, root_term_check):
-    """t == add(to_owned(HEADER), deref(&to_serde_struct(&root, &options)))"""
+    """t == add(to_owned(HEADER), deref(&to_serde_struct(&root, &options)))  (or the same built by two push_str)"""
+    built = _built_by_pushes(body, t)
+    if built is not None:
+        return True, "String built by push_str(HEADER); push_str(&root.to_serde_struct(&options))", built
     t = strip(t)
     if t[0] == "local":
         return False, "value is a variable with several definitions (_%d)" % t[1], None
@@ -101,6 +137,15 @@ def check_bin(r, b, tag):
         r.ob("A7.anchor" + sfx, "bin", False, "expected exactly one body calling the library parser, found %d" % len(runs), key="A7.anchor|run" + sfx)
         return
     run_b = runs[0]
+    # the driver function is the one main calls; the parser call may sit in a private helper below it
+    cg = b.callgraph()
+    for _ in range(4):
+        if "main" in cg and run_b.name in cg.get("main", ()):
+            break
+        callers = [n for n, cs_ in cg.items() if run_b.name in cs_ and n != run_b.name and not n.startswith("<")]
+        if len(callers) != 1:
+            break
+        run_b = b.bodies[callers[0]]
     mains = [x for x in b.real_bodies() if x.name == "main"]
     if len(mains) != 1:
         r.ob("A7.anchor" + sfx, "bin", False, "no main body", key="A7.anchor|main" + sfx)
@@ -145,20 +190,38 @@ def check_bin(r, b, tag):
     r.ob("R12.2.input-path" + sfx, run_b.name, _is_field(pth, "input_path"), "input is read from config.input_path" if _is_field(pth, "input_path")
          else "input path is %s" % term_s(pth), site=reads[0], key="R12.2|input-path" + sfx)
 
-    # R12.1 every output effect after both successes
+    # R12.1 no output effect on any path that continues from a failed read or a failed parse (path walk with
+    # Result variants tracked, so `?` nested in an inlined helper and re-propagated by the caller is followed)
+    out_blocks = {}
     for k, cs in effects:
         if k in ("fs-write", "stdout", "write"):
-            d1 = br_read[1] is not None and run_b.dominates(br_read[1], cs.bb)
-            d2 = br_parse[1] is not None and run_b.dominates(br_parse[1], cs.bb)
-            r.ob("R12.1.output-after-success" + sfx, "%s: %s" % (run_b.name, cname(cs.node)), d1 and d2,
-                 "dominated by the success edges of the `?` on the input read and on into_struct" if d1 and d2 else
-                 "`%s` can execute before the input was read and parsed successfully (read ok: %s, parse ok: %s)" % (cname(cs.node), d1, d2),
-                 site=cs, key="R12.1|%s%s" % (cname(cs.node), sfx))
+            out_blocks.setdefault(cs.bb, cs)
         if k == "exit":
             r.ob("R12.6.exit" + sfx, "%s: process::exit" % run_b.name, False, "run terminates the process itself", site=cs, key="R12.6|exit-in-run" + sfx)
-        if k == "stderr":
-            pass
+    for what, br in (("input read", br_read), ("parse", br_parse)):
+        hit = []
+        if br[2] is not None:
+            def visit(bb, st, _hit=hit):
+                if bb in out_blocks:
+                    _hit.append(out_blocks[bb])
+                    return ("effect", bb)
+                return None
+            mir.walk_paths(run_b, br[2], visit)
+        before = []
 
+        def visit0(bb, st, _b=before, _stop=br[0].bb):
+            if bb == _stop:
+                return ("reached", bb)
+            if bb in out_blocks:
+                _b.append(out_blocks[bb])
+                return ("effect", bb)
+            return None
+        mir.walk_paths(run_b, 0, visit0)
+        ok1 = not hit and not before
+        r.ob("R12.1.output-after-success" + sfx, "%s: after a failed %s" % (run_b.name, what), ok1,
+             "no file-system or stdout effect is reachable from the error outcome of the %s, and none precedes it" % what if ok1 else
+             "`%s` can execute although the %s failed / before it" % (cname((hit or before)[0].node), what),
+             site=(hit or before or [br[0]])[0], key="R12.1|%s%s" % (what, sfx))
     # ---- output region
     sw_site = None
     for bb in sorted(run_b.reachable()):
@@ -209,7 +272,23 @@ def check_bin(r, b, tag):
     else:
         okw = len(writes) == 1 and cname(writes[0].node) == "std::io::Write::write_fmt"
         whyw = "one write_fmt on the created file"
-        if okw:
+        if len(writes) == 1 and cname(writes[0].node) == "std::io::Write::write_all":
+            w = writes[0]
+            recv = strip(term_of(run_b, w.node["args"][0]))
+            made = creates and any(st[0] == "call" and len(st) > 3 and st[3] == creates[0] for st in mir.subterms(recv))
+            val = strip(term_of(run_b, w.node["args"][1]))
+            if val[0] == "call" and val[1] in ("std::string::String::as_bytes", "core::str::as_bytes"):
+                val = strip(val[2][0])
+            bytes_ok = arg_ty(run_b, w.node["args"][1]).get("s", "") in ("&[u8]",)
+            if made and bytes_ok:
+                struct_terms.append(("file", w, val))
+                r.ob("R12.3.file-content-template" + sfx, run_b.name, True, "write_all(value.as_bytes()) on the file returned by File::create", site=w, key="R12.3|write" + sfx)
+            else:
+                r.ob("R12.3.file-content-template" + sfx, run_b.name, False, "write_all of something other than the value's bytes, or not on the created file", site=w, key="R12.3|write" + sfx)
+            okw = None
+        if okw is None:
+            pass
+        elif okw:
             w = writes[0]
             f = display_args(run_b, w.node["args"][1])
             recv = strip(term_of(run_b, w.node["args"][0]))
@@ -225,7 +304,8 @@ def check_bin(r, b, tag):
                 whyw = "write!(file, \"{}\", value) on the file returned by File::create"
         else:
             whyw = "writes in the Some(path) alternative: %s" % [cname(c.node) for c in writes]
-        r.ob("R12.3.file-content-template" + sfx, run_b.name, okw, whyw, site=writes[0] if writes else None, key="R12.3|write" + sfx)
+        if okw is not None:
+            r.ob("R12.3.file-content-template" + sfx, run_b.name, okw, whyw, site=writes[0] if writes else None, key="R12.3|write" + sfx)
     # None
     prints = eff(none_only, ("stdout",))
     okp = len(prints) == 1 and cname(prints[0].node) == "std::io::_print"
@@ -257,7 +337,8 @@ def check_bin(r, b, tag):
         rsite = render[3]
         root = strip(render[2][0])
         root_ok = any(st[0] == "call" and len(st) > 3 and st[1] == "std::ops::Try::branch" and st[3] == br_parse[0] for st in mir.subterms(root)) or \
-            _derives_from_branch(run_b, rsite.node["args"][0], br_parse[0])
+            _derives_from_branch(run_b, rsite.node["args"][0], br_parse[0]) or \
+            ("call", parse[0]) in run_b.origins(rsite.node["args"][0], transparent=lambda n: n is not parse[0].node and (cname(n) in mir.VALUE_PRESERVING or cname(n) == "std::ops::Try::branch"))
         r.ob("R12.2.renders-parsed-root" + sfx, run_b.name, root_ok, "to_serde_struct is called on the value into_struct returned"
              if root_ok else "to_serde_struct receiver is %s" % term_s(root)[:80], site=rsite, key="R12.2|root" + sfx)
         # R12.4 options
@@ -305,6 +386,37 @@ def check_options(r, run_b, render_site, sfx):
                 continue
         break
     defs = run_b.defs().get(l, [])
+    # struct-update form: Options { sort: From(config.sort), ..From(config.parser).derive(&config.derive) }
+    if len(defs) == 1 and defs[0].si is not None and defs[0].node["k"] == "assign" and defs[0].node["rv"]["k"] == "agg" and defs[0].node["rv"].get("adt", "").endswith("Options"):
+        rv = defs[0].node["rv"]
+        vals = {f: strip(term_of(run_b, o)) for f, o in zip(rv["fields"], rv["ops"])}
+        srt = vals.get("sort", ("x",))
+        sort_ok = srt[0] == "call" and srt[1] in ("std::convert::Into::into", "std::convert::From::from") and _is_field(srt[2][0], "sort")
+        bases = []
+        rest_ok = True
+        for f, v in vals.items():
+            if f == "sort":
+                continue
+            if v[0] == "proj" and [e[3] for e in v[2] if e != "*" and e[0] == "f"] == [f]:
+                bases.append(strip(v[1]))
+            else:
+                rest_ok = False
+        base_ok = False
+        if rest_ok and bases and all(mir.same_place_term(bases[0], x) for x in bases[1:]):
+            bt = bases[0]
+            if bt[0] == "local":
+                dd = run_b.defs().get(bt[1], [])
+                if len(dd) == 1 and dd[0].si is None:
+                    bt = ("call", cname(dd[0].node), [term_of(run_b, a) for a in dd[0].node["args"]], dd[0])
+            if bt[0] == "call" and bt[1].endswith("Options::derive") and len(bt[2]) == 2:
+                pre = strip(bt[2][0])
+                dv = strip(bt[2][1], mir.VALUE_PRESERVING)
+                base_ok = pre[0] == "call" and pre[1] in ("std::convert::Into::into", "std::convert::From::from") and _is_field(pre[2][0], "parser") and _is_field(dv, "derive")
+        ok = sort_ok and rest_ok and base_ok
+        r.ob("R12.4.options" + sfx, run_b.name, ok, "options = Options { sort: From(config.sort), ..From(config.parser).derive(&config.derive) }" if ok else
+             "struct-update construction of the options: sort ok=%s, other fields taken from one base=%s, base is preset.derive(&config.derive)=%s" % (sort_ok, rest_ok, base_ok),
+             site=render_site, key="R12.4|stages" + sfx)
+        return
     stages = {}
     other = []
     for d in defs:
